@@ -174,10 +174,6 @@ structure St where
   schema : Schema := { types := [], query := "", mutation := none, subscription := none }
   /-- directive definitions announced by `(directives …)`, attached to the next `(schema …)` -/
   directives : List DirectiveDef := []
-  /-- Set by `(dirargs filtered)`: the library under test has fix 05 (a directive argument whose type's
-      features are disabled is treated as undefined). Transitional switch: the theorems about the
-      filtered accessors are staged in ApiFu/C13E until the fix is on /repo's main. -/
-  dirArgsFiltered : Bool := false
 
 def parseDirective : Sexp → Option DirectiveDef
   | .list [.atom n, args] => (parseArgs args).map fun a => { name := n, args := a }
@@ -190,16 +186,6 @@ def dirsSexp (ds : List DirectiveDef) : Sexp :=
 def pick (S : Schema) (F : Feats) (which : String) : Schema × Feats :=
   if which == "erased" then (erase S F, top) else (S, F)
 
-/-- The view the ties use: as `view`; with fix 05 the directive accessors only show the arguments whose
-    type's required features are enabled (`DirectiveDefinition.VisibleArguments`). -/
-def viewFor (filtered : Bool) (S : Schema) (F : Feats) : View :=
-  if filtered then
-    let vis := fun (a : Arg) => reqOk F (S.reqOf a.ty.base)
-    { view S F with
-      directivesListing := S.directives.map (fun d => { d with args := d.args.filter vis })
-      directiveArgs := fun dn => (S.directives.find? (fun d => d.name == dn)).map (fun d => d.args.filter vis) }
-  else view S F
-
 def handle (st : St) (line : String) : St × String :=
   match Sexp.parse line with
   | some (.list [.atom "schema", s]) =>
@@ -209,7 +195,6 @@ def handle (st : St) (line : String) : St × String :=
        "(accepted " ++ (if Accepted S then "true" else "false") ++ " " ++
          (if RootsUngated S then "rootsUngated" else "rootsGated") ++ ")")
     | none => (st, "bad-schema")
-  | some (.list [.atom "dirargs", .atom m]) => ({ st with dirArgsFiltered := m == "filtered" }, "ok")
   | some (.list (.atom "directives" :: ds)) =>
     match ds.mapM parseDirective with
     | some d => ({ st with directives := d }, "ok")
@@ -224,13 +209,13 @@ def handle (st : St) (line : String) : St × String :=
     | none => (st, "bad-op")
   | some (.list [.atom "view", fs]) =>
     match atoms fs with
-    | some f => (st, toString (viewSexp st.schema (viewFor st.dirArgsFiltered st.schema (featsOf f))))
+    | some f => (st, toString (viewSexp st.schema (view st.schema (featsOf f))))
     | none => (st, "bad-op")
   | some (.list [.atom "introspect", fs, .atom which, q]) =>
     match atoms fs, parseSels q with
     | some f, some sels =>
       let (S, F) := pick st.schema (featsOf f) which
-      (st, (introspect (viewFor st.dirArgsFiltered S F) sels).render)
+      (st, (introspect (view S F) sels).render)
     | _, _ => (st, "bad-op")
   | some (.list [.atom "walk", fs, .atom which, .atom root, q]) =>
     match atoms fs, parseSels q with
